@@ -246,6 +246,24 @@ def gen_c09_order(rng):
     return cfg + "\n" + "\n".join(ops) + "\n"
 
 
+def gen_c04_ack(rng):
+    """wait() is the acknowledgement point: with the device writes held back (write gate) a wait() issued after an insert,
+    an overwrite or a delete has handed its batch to the device must not return before the gate opens"""
+    tomb = rng.choice([0, 1])
+    cfg = H.cfg_line(policy="woi", algo="fifo", mem=100, univ=4, blocks=8, tomb=tomb)
+    ops, ver = [], 1
+    for k in range(rng.choice([1, 2, 3])):
+        ops.append(f"ins k={k} ver={ver} size={rng.choice([64, 3000])}"); ver += 1
+    ops.append("wait")
+    for _ in range(rng.choice([1, 2, 3])):
+        k = rng.randrange(3)
+        ops.append("iogate")
+        ops.append(rng.choice([f"ins k={k} ver={ver} size=64", f"ins k={k} ver={ver} size=3000", f"rm k={k}"])); ver += 1
+        ops += [f"sleep ms={rng.choice([30, 60])}", "waitprobe ms=100", "ioopen", "join"]
+    ops += ["wait", "crashsweep tears=0"]
+    return cfg + "\n" + "\n".join(ops) + "\n"
+
+
 def gen_c04(rng, wrap, tears="0,1"):
     policy = rng.choice(["woi", "woe"])
     tomb = rng.choice([0, 1])
@@ -379,7 +397,8 @@ def gen_scripts(pid, tier, seed):
             "offsets of reused blocks), looked up after every burst"
     if pid == "C04":
         n = 60 if th else 8
-        return [gen_c04(rng, False, "0,1,3" if th else "0,1") for _ in range(n)] + [gen_c04(rng, True) for _ in range(n // 2)], \
+        return [gen_c04(rng, False, "0,1,3" if th else "0,1") for _ in range(n)] + [gen_c04(rng, True) for _ in range(n // 2)] + \
+               [gen_c04_ack(rng) for _ in range(n // 2)], \
             "workloads of inserts / overwrites / deletes / waits; every write boundary of the logged device writes (plus 1- and " \
             "3-page tears of the in-flight write) turned into a device image, reopened, every key read, one more write issued; " \
             "also wrap-around workloads on a 4-block device (reclaim in progress at the crash)"
